@@ -23,9 +23,12 @@ def project(r):
     return ('OK',)
 
 
-def expected(d):
+def expected(d, nosp=False):
     out = []
-    for name, in_math in d.unk:
+    for i, (name, in_math) in enumerate(d.unk):
+        # (with --nosp, \\LTadd drops its argument as LaTeX does)
+        if nosp and i in d.unk_ltadd:
+            continue
         if not in_math and name not in out:
             out.append(name)
     return out
@@ -46,7 +49,7 @@ def oracle(c, d, kind, im):
     if d is not None and kind == 'doc':
         got = [n for n in names if n in TRACKED
                and not (c.nosp and n == '\\foo')]
-        want = expected(d)
+        want = expected(d, c.nosp)
         if got != want:
             return ('undeclared names used in text, in order of first use: %r; '
                     'listed: %r' % (want, got))
